@@ -842,12 +842,14 @@ def ranking(cx):
                         form_i = 0
                         for ka in range(na + 1):
                             for kb in range(nb + 1):
-                                form = ("dict", "tuple", "explicit")[form_i % 3]
+                                form = ("dict", "tuple", "explicit", "dict-rev")[form_i % 4]
                                 form_i += 1
                                 sp_kind = ("callable", "dict")[form_i % 2]
                                 species = _species_of if sp_kind == "callable" else dict(species_map)
                                 if form == "dict":
                                     sector = {labs[0]: ka, labs[1]: kb}
+                                elif form == "dict-rev":  # same sector, keys inserted in the other order
+                                    sector = {labs[1]: kb, labs[0]: ka}
                                 elif form == "tuple":
                                     sector = (ka, kb)
                                 else:
@@ -861,6 +863,37 @@ def ranking(cx):
                                          lambda common=common, kw=kw, ka=ka, kb=kb, na=na, nb=nb, species_map=species_map:
                                          _ranking_thunk(*common, kw, "U1U1", (ka, kb), species_map,
                                                         math.comb(na, ka) * math.comb(nb, kb)))
+                                # every insertion order of the species keys of a dict sector, as the default sector and per call
+                                if ka != kb or na != nb:
+                                    for dform, dsec in (("dict", {labs[0]: ka, labs[1]: kb}), ("dict-rev", {labs[1]: kb, labs[0]: ka})):
+                                        if dform == form:
+                                            continue  # already the default-sector case above
+                                        kw2 = dict(species=species, sector=dsec)
+                                        cx.check("HilbertSpace U1U1 (species): rank <-> config is a bijection onto the C(na,ka)*C(nb,kb) "
+                                                 "configurations with the species fillings",
+                                                 dict(base, sector=[ka, kb], form=dform, species=sp_kind, symmetry_given=False,
+                                                      unequal=True),
+                                                 lambda common=common, kw2=kw2, ka=ka, kb=kb, na=na, nb=nb, species_map=species_map:
+                                                 _ranking_thunk(*common, kw2, "U1U1", (ka, kb), species_map,
+                                                                math.comb(na, ka) * math.comb(nb, kb)))
+
+                                    def t_percall(supply=supply, order_arg=order_arg, species=species, labs=labs, ka=ka, kb=kb, na=na,
+                                                  nb=nb):
+                                        for hs_kw in ({}, dict(sector={labs[0]: kb % (na + 1), labs[1]: ka % (nb + 1)})):
+                                            hs = HilbertSpace(supply, order=order_arg, species=species, **hs_kw)
+                                            for dsec in ({labs[0]: ka, labs[1]: kb}, {labs[1]: kb, labs[0]: ka}):
+                                                for sym in (None, "U1U1"):
+                                                    sec_nb, sym_nb = hs.get_sector_numba(sector=dsec, symmetry=sym)
+                                                    if sym_nb != 3 or [int(v) for v in sec_nb] != [na, ka, nb, kb]:
+                                                        return (f"get_sector_numba(sector={dsec}) = {list(sec_nb)} (symmetry {sym_nb}), "
+                                                                f"expected [na, ka, nb, kb] = {[na, ka, nb, kb]} in sorted species order")
+                                                    if int(hs.get_size(dsec, sym)) != math.comb(na, ka) * math.comb(nb, kb):
+                                                        return f"get_size(sector={dsec}) = {hs.get_size(dsec, sym)}"
+                                        return None
+
+                                    cx.check("HilbertSpace U1U1: a {species: filling} sector passed per call (any key order, also overriding "
+                                             "a default sector) is parsed as [na, ka, nb, kb] in sorted species order",
+                                             dict(base, sector=[ka, kb], species=sp_kind), t_percall)
                 # explicit ((na,ka),(nb,kb)) sector without species: the first na registers form block a
                 if n >= 2:
                     na = int(rng.integers(1, n))
@@ -1113,14 +1146,25 @@ def _forked(body, timeout=60):
     return ("died", -os.WTERMSIG(status) if os.WIFSIGNALED(status) else os.WEXITSTATUS(status))
 
 
-def _sector_index(HilbertSpace, supply, order_arg, regs, hs_kw):
-    """full-space indices of the sector's basis states, enumerated through the public ranking API"""
+def _sector_index(HilbertSpace, supply, order_arg, regs, hs_kw, expect=None):
+    """full-space indices of the sector's basis states, enumerated through the public ranking API (which fixes their
+    order).  expect = (symmetry, sector, species_map): the *set* of states must be exactly the sector as enumerated HERE
+    by (species) occupation -- independent of how the library parsed the sector spelling"""
     n = len(regs)
     hs = HilbertSpace(supply, order=order_arg, **hs_kw)
     idx = []
     for r in range(int(hs.size)):
         cfg = hs.rank_to_config(r)
         idx.append(sum(int(cfg[s]) << (n - 1 - q) for q, s in enumerate(regs)))
+    if expect is not None:
+        symmetry, sector, species_map = expect
+        want = set()
+        for j, bits in enumerate(itertools.product((0, 1), repeat=n)):
+            if _sector_ok({s_: b for s_, b in zip(regs, bits)}, symmetry, sector, regs, species_map):
+                want.add(j)
+        if set(idx) != want or len(idx) != len(want):
+            raise AssertionError(f"sector {hs_kw.get('sector')!r} ({symmetry} {sector}): rank_to_config enumerates {len(set(idx))} states, "
+                                 f"{len(set(idx) ^ want)} of them differ from the {len(want)} configurations with that occupation")
     return idx
 
 
@@ -1194,9 +1238,18 @@ def symmetry_sectors(cx):
         else:
             cand = {(0, 0), (na, nb), (int(rng.integers(0, na + 1)), int(rng.integers(0, nb + 1))), (na // 2, (nb + 1) // 2)}
             labs = sorted(set(species_map.values()))
-            for ka, kb in sorted(cand):
-                form = "explicit" if blocks else ("dict", "tuple", "explicit")[int(rng.integers(0, 3))]
-                sec = {labs[0]: ka, labs[1]: kb} if form == "dict" else (ka, kb) if form == "tuple" else ((na, ka), (nb, kb))
+            cand = [(ka, kb, None) for ka, kb in sorted(cand)]
+            if not blocks:
+                # unequal fillings spelled as a dict in both key orders (a sector parsed in the user's key order instead of
+                # the sorted species order would be another sector of the same or a different size)
+                uneq = [(a_, b_) for a_ in range(na + 1) for b_ in range(nb + 1) if a_ != b_]
+                if uneq:
+                    ua, ub = uneq[int(rng.integers(0, len(uneq)))]
+                    cand += [(ua, ub, "dict-rev"), (ua, ub, "dict")]
+            for ka, kb, forced in cand:
+                form = forced or ("explicit" if blocks else ("dict", "tuple", "explicit", "dict-rev")[int(rng.integers(0, 4))])
+                sec = ({labs[0]: ka, labs[1]: kb} if form == "dict" else {labs[1]: kb, labs[0]: ka} if form == "dict-rev" else
+                       (ka, kb) if form == "tuple" else ((na, ka), (nb, kb)))
                 explicit = bool(rng.integers(0, 2))
                 kw = dict(sector=sec, symmetry="U1U1") if explicit else dict(sector=sec)
                 sectors.append((kw, dict(sector=[ka, kb], form=form, symmetry_given=explicit)))
@@ -1229,9 +1282,16 @@ def symmetry_sectors(cx):
             st = STYPES[(i + si) % 3]
             p = dict(base, mode=mode, **sdesc)
 
-            def sector_ref(full=full, skw=skw, supply=supply, order_arg=order_arg, regs=regs, species_kw=species_kw):
+            if kind == "z2":
+                expect = ("Z2", {"even": 0, "odd": 1}.get(skw["sector"], skw["sector"]), None)
+            elif kind == "u1":
+                expect = ("U1", skw["sector"], None)
+            else:
+                expect = ("U1U1", tuple(sdesc["sector"]), species_map)
+
+            def sector_ref(full=full, skw=skw, supply=supply, order_arg=order_arg, regs=regs, species_kw=species_kw, expect=expect):
                 ref = full()
-                idx = _sector_index(HilbertSpace, supply, order_arg, regs, dict(species_kw, **skw))
+                idx = _sector_index(HilbertSpace, supply, order_arg, regs, dict(species_kw, **skw), expect)
                 out = [j for j in range(ref.shape[0]) if j not in set(idx)]
                 if out and idx and np.abs(ref[np.ix_(out, idx)]).max() > 1e-12:
                     raise AssertionError("the basis states enumerated by rank_to_config do not span an invariant subspace of the "
@@ -1463,12 +1523,12 @@ def model_builders(cx):
                 k = int(rng.integers(0, n + 1))
                 secs.append((dict(sector=k, symmetry="U1"), dict(sector=k, symmetry="U1"),
                              lambda k=k, nodes=nodes, order_arg=order_arg, regs=regs: _sector_index(
-                                 HilbertSpace, nodes, order_arg, regs, dict(sector=k, symmetry="U1"))))
+                                 HilbertSpace, nodes, order_arg, regs, dict(sector=k, symmetry="U1"), ("U1", k, None))))
             if sym_z2:
                 p = ("even", "odd")[int(rng.integers(0, 2))]
                 secs.append((dict(sector=p, symmetry="Z2"), dict(sector=p),
                              lambda p=p, nodes=nodes, order_arg=order_arg, regs=regs: _sector_index(
-                                 HilbertSpace, nodes, order_arg, regs, dict(sector=p))))
+                                 HilbertSpace, nodes, order_arg, regs, dict(sector=p), ("Z2", {"even": 0, "odd": 1}[p], None))))
             ctx = {}
             _light_checks(cx, "heisenberg_from_edges", params,
                           lambda ctx=ctx, getH=getH: ctx.setdefault("H", None) or ctx.__setitem__("H", getH()) or ctx["H"],
@@ -1479,7 +1539,7 @@ def model_builders(cx):
 
                 def t_ctor(edges=edges, jarg=jarg, barg=barg, order_arg=order_arg, k2=k2, ref=ref, nodes=nodes, regs=regs):
                     H = qop.heisenberg_from_edges(edges, j=jarg, b=barg, order=order_arg, sector=k2, symmetry="U1")
-                    idx = _sector_index(HilbertSpace, nodes, order_arg, regs, dict(sector=k2))
+                    idx = _sector_index(HilbertSpace, nodes, order_arg, regs, dict(sector=k2), ("U1", k2, None))
                     if int(H.hilbert_space.size) != len(idx):
                         return f"hilbert_space.size {H.hilbert_space.size} != {len(idx)}"
                     return close(H.build_dense(), ref()[np.ix_(idx, idx)], "build_dense() in the model's default sector")
@@ -1530,16 +1590,21 @@ def model_builders(cx):
 
                 hs_kw = dict(species=_species_of)
                 ka, kb = int(rng.integers(0, nc + 1)), int(rng.integers(0, nc + 1))
-                form = ("dict", "tuple", "explicit")[int(rng.integers(0, 3))]
-                sec = {"↑": ka, "↓": kb} if form == "dict" else (ka, kb) if form == "tuple" else ((nc, ka), (nc, kb))
+                if rng.integers(0, 2) and nc >= 1:
+                    # unequal fillings: a dict parsed in the user's key order would denote another sector of the same size
+                    kb = (ka + 1 + int(rng.integers(0, nc))) % (nc + 1)
+                form = ("dict", "dict-rev", "tuple", "explicit")[int(rng.integers(0, 4))]
+                sec = ({"↑": ka, "↓": kb} if form == "dict" else {"↓": kb, "↑": ka} if form == "dict-rev" else
+                       (ka, kb) if form == "tuple" else ((nc, ka), (nc, kb)))
                 ktot = int(rng.integers(0, n + 1))
+                spmap = {s_: s_[0] for s_ in sites}
                 secs = [
                     (dict(sector=[ka, kb], form=form, symmetry="U1U1"), dict(sector=sec),
-                     lambda sec=sec, sites=sites, order_arg=order_arg, regs=regs: _sector_index(
-                         HilbertSpace, sites, order_arg, regs, dict(species=_species_of, sector=sec))),
+                     lambda sec=sec, sites=sites, order_arg=order_arg, regs=regs, ka=ka, kb=kb, spmap=spmap: _sector_index(
+                         HilbertSpace, sites, order_arg, regs, dict(species=_species_of, sector=sec), ("U1U1", (ka, kb), spmap))),
                     (dict(sector=ktot, symmetry="U1"), dict(sector=ktot),
                      lambda ktot=ktot, sites=sites, order_arg=order_arg, regs=regs: _sector_index(
-                         HilbertSpace, sites, order_arg, regs, dict(sector=ktot))),
+                         HilbertSpace, sites, order_arg, regs, dict(sector=ktot), ("U1", ktot, None))),
                 ]
                 name = "fermi_hubbard_from_edges"
                 sector_ctor = dict(sector=sec)
@@ -1576,14 +1641,14 @@ def model_builders(cx):
                 p = ("even", "odd")[int(rng.integers(0, 2))]
                 secs = [(dict(sector=p, symmetry="Z2", termwise_symmetric=True), dict(sector=p),
                          lambda p=p, sites=sites, order_arg=order_arg, regs=regs: _sector_index(
-                             HilbertSpace, sites, order_arg, regs, dict(sector=p)))]
+                             HilbertSpace, sites, order_arg, regs, dict(sector=p), ("Z2", {"even": 0, "odd": 1}[p], None)))]
                 sector_ctor = dict(sector=p)
                 ctor_index = secs[0][2]
                 if not has_delta:
                     k = int(rng.integers(0, n + 1))
                     secs.append((dict(sector=k, symmetry="U1"), dict(sector=k, symmetry="U1"),
                                  lambda k=k, sites=sites, order_arg=order_arg, regs=regs: _sector_index(
-                                     HilbertSpace, sites, order_arg, regs, dict(sector=k))))
+                                     HilbertSpace, sites, order_arg, regs, dict(sector=k), ("U1", k, None))))
                 name = "fermi_hubbard_spinless_from_edges"
             ctx = {}
             R0 = None
